@@ -836,7 +836,7 @@ func runBatch(c *Ctx) {
 		}
 	}
 	// 3. all hit/pending/miss patterns of length 5 and 6 over distinct keys (3^5 + 3^6), every kind,
-	//    one rotating configuration (thorough: every configuration), plus a variant with duplicates
+	//    one rotating configuration (thorough: three), half of them in a variant with duplicates
 	for n := 5; n <= 6; n++ {
 		for _, st := range states(n, "HPA") {
 			keys := make([]int, n)
@@ -844,10 +844,12 @@ func runBatch(c *Ctx) {
 				keys[i] = i
 			}
 			for _, kind := range allKinds {
-				cfgs := allCfgs
-				if !thorough {
-					_, g := pick()
-					cfgs = []rigCfg{g}
+				_, g := pick()
+				cfgs := []rigCfg{g}
+				if thorough { // three of the six configurations, rotating
+					for k := 1; k <= 2; k++ {
+						cfgs = append(cfgs, allCfgs[(rot/len(allKinds)+2*k)%len(allCfgs)])
+					}
 				}
 				for _, g := range cfgs {
 					r := rs.get(g)
